@@ -63,6 +63,31 @@ def gen_family_sources(rng, exact_only):
     return srcs, fam, kinds
 
 
+def directed_sets():
+    """source sets with a fixed structure that random generation reaches only now and then:
+    a glyph that borrows one outline from each of two other glyphs; mirrored and quarter-turned copies"""
+    kinds = KINDS[:2]
+    bases = [GRID_SHAPES[k] for k in kinds]
+    vb = 500
+    plans = [
+        # (doc, [(base, isometry kind, affine)])
+        [[(0, "translate", (1, 0, 0, 1, 100, 100))], [(1, "translate", (1, 0, 0, 1, 150, 120))], [(0, "pyth345", (0.6, 0.8, -0.8, 0.6, 300, 150)), (1, "mirror", (-1, 0, 0, 1, 350, 320))]],
+        [[(0, "translate", (1, 0, 0, 1, 100, 100)), (0, "mirror", (1, 0, 0, -1, 250, 400)), (0, "rot90", (0, 1, -1, 0, 400, 150)), (0, "mirror", (-1, 0, 0, 1, 420, 380))]],
+    ]
+    out = []
+    for plan in plans:
+        srcs, fam = [], {}
+        for di, items in enumerate(plan):
+            shapes = []
+            for ii, (b, kind, t) in enumerate(items):
+                shapes.append(svggen.Shape(svggen.segs_to_d(svggen.apply_affine(t, bases[b]), nd=3), svggen.Solid(svggen.COLORS[(di + ii) % 6]), 1.0))
+                fam[(di, ii)] = (b, kind)
+            cps = (0x1F600 + di,)
+            srcs.append((build.filename_for(cps), svggen.Doc((0, 0, vb, vb), shapes).to_svg(), cps))
+        out.append((srcs, fam, kinds))
+    return out
+
+
 def outline_key(font, glyph_name, depth=0):
     """The outline glyph a (possibly composite) glyph ultimately draws."""
     if "glyf" in font:
@@ -155,11 +180,16 @@ def otsvg_normal_form_split(srcs, tol):
 
 def run_e2e(report, n, rng):
     formats = ["glyf_colr_1", "glyf_colr_0", "picosvg"]
-    for i in range(n):
-        fmt = formats[i % 3]
-        exact = rng.random() < 0.6
-        srcs, fam, kinds = gen_family_sources(rng, exact)
-        tol = rng.choice([0.1, 0.1, 0.2, -1.0])
+    directed = [(fmt, d) for d in directed_sets() for fmt in formats]
+    for i in range(len(directed) + n):
+        if i < len(directed):
+            fmt, (srcs, fam, kinds) = directed[i]
+            exact, tol = True, 0.1
+        else:
+            fmt = formats[i % 3]
+            exact = rng.random() < 0.6
+            srcs, fam, kinds = gen_family_sources(rng, exact)
+            tol = rng.choice([0.1, 0.1, 0.2, -1.0])
         over = dict(color_format=fmt, upem=1000, ascender=800, descender=-200, width=1000, reuse_tolerance=tol, keep_glyph_names=True)
         case = dict(kind="e2e", format=fmt, reuse_tolerance=tol, stream="exact isometries" if exact else "incl. generic angles", sources=[s[1] for s in srcs])
         import nanoemoji.glyph_reuse as gr
